@@ -143,8 +143,45 @@ def interpolation(rep, an):
                              msg="whether the input domains are 'the same' is decided with an absolute tolerance on domain coordinates: grids in "
                                  "small units (metres) or with sub-tolerance offsets are declared identical and the arrays are returned "
                                  "un-interpolated on the first domain")
+        equality_decision(rep, res, entry)
         order_invariance(rep, res, entry)
         grid_construction(rep, res, entry)
+
+
+WHOLE_ARRAY = {"array_equal", "array_equiv", "allclose", "isclose", "all", "any", "max", "amax", "min", "amin", "sum", "count_nonzero",
+               "nonzero", "norm", "equal", "not_equal", "setdiff1d", "setxor1d", "tobytes", "tolist", "ptp", "alltrue"}
+
+
+def equality_decision(rep, res, entry):
+    """the decision that skips the interpolation ("the domains are the same") compares the domains ENTRY BY ENTRY: a decision taken on
+    extents / sizes and individually indexed entries (first and last value) declares grids with equal end points and different spacing
+    identical, and their arrays are returned un-interpolated.  Decided on the syntax of the function(s) called in the test that guards
+    `_interpolate_domains` (resolved callees), or on the test itself when it is written inline."""
+    import ast
+    fn = res.fn
+    guards = [n for n in ast.walk(fn.node) if isinstance(n, ast.If) and any(
+        isinstance(c, ast.Call) and "interpolate" in norm_text(c.func) for b in n.body + n.orelse for c in ast.walk(b))]
+    callees = {ev.d["callee"].name: ev.d["callee"] for ev in res.events("call")}
+    for g in guards[:1]:
+        bodies = []
+        for c in ast.walk(g.test):
+            if isinstance(c, ast.Call):
+                nm = c.func.attr if isinstance(c.func, ast.Attribute) else getattr(c.func, "id", None)
+                if nm in callees and callees[nm].module.name == fn.module.name:
+                    bodies.append((callees[nm], callees[nm].node))
+        if not bodies:
+            bodies = [(fn, g.test)]
+        for f, node in bodies:
+            names = set()
+            for c in ast.walk(node):
+                if isinstance(c, ast.Call):
+                    names.add(c.func.attr if isinstance(c.func, ast.Attribute) else getattr(c.func, "id", ""))
+            ok = bool(names & WHOLE_ARRAY)
+            rep.check("R-TYPESTATE", "different domains are never declared equal", ok, where=f.loc(node if hasattr(node, "lineno") else None),
+                      construct=f"equality decision in {f.name}", entry=entry, config=res.config,
+                      msg="the test that lets equalize_domains skip the interpolation contains no comparison over all entries of the domains "
+                          "(array_equal / all(a == b) / allclose …): sizes, shapes and individually indexed end points agree for grids of "
+                          "different spacing, whose arrays are then returned un-interpolated on the first domain")
 
 
 def stacking(rep, an):
